@@ -27,7 +27,7 @@ def _imports():
 
 KINDS = ["xor_add", "mul", "div", "mod", "sdiv", "addmod", "mulmod", "exp", "exp", "bytes_len", "bytes_tail", "arr_sum", "two_args", "storage", "signed", "shift",
          "nested_assert", "conj3", "arr_loop", "loop_guard", "smod_zero", "mod_zero", "div_zero", "sdiv_zero", "addmod_zero", "mulmod_zero",
-         "mul_exp", "mul_exp", "two_fail", "two_fail", "multi_width", "multi_width", "div_zero_hit", "mod_zero_hit", "sdiv_zero_hit", "smod_zero_hit"]
+         "mul_exp", "mul_exp", "two_fail", "two_fail", "multi_width", "multi_width", "vmassert_hard", "arr_len_mul", "div_zero_hit", "mod_zero_hit", "sdiv_zero_hit", "smod_zero_hit"]
 
 
 def case(seed, idx, res, tier):
@@ -38,6 +38,9 @@ def case(seed, idx, res, tier):
     solver = "z3" if rng.random() < 0.15 else "yices"
     codes = set() if rng.random() < 0.2 else {1, 0x11}
     ov = dict(solver=solver, panic_error_codes=set(codes), loop=5, storage_layout=rng.choice(["solidity", "generic"]))
+    if rng.random() < 0.3:
+        ov["cache_solver"] = True
+        res["features"]["cache_solver"] += 1
     res["features"][f"solver:{solver}"] += 1
     out, d = e2e.run_contract_case(rng, spec, setup, tests, overrides=ov, dump=True)
     try:
